@@ -24,7 +24,8 @@ std::vector<gnet::Doc> g_gkf, g_adj, g_g3;
 std::vector<int> g_sweep;                 // indices into g_gkf, the documents swept in this tier
 std::vector<size_t> g_sweep_off;          // prefix sums of 2*len
 std::vector<ioev::Space> g_spaces;        // enumerated event-sequence spaces (class iii), after the document sweeps
-std::vector<uint64_t> g_space_off;        // their first indices; back() = end of the enumerated part
+std::vector<uint64_t> g_space_off;        // their first indices; back() = end of the event spaces
+uint64_t g_scale_first = 0;               // the documents of extreme size follow: n_scale_docs() more enumerated indices
 std::string g_tier = "quick";
 
 void load_all()
@@ -51,6 +52,7 @@ void setup_sweep(const std::string& tier)
   }
   g_spaces = ioev::spaces(tier); g_space_off.assign(1, total);
   for (auto& sp : g_spaces) g_space_off.push_back(g_space_off.back() + sp.count);
+  g_scale_first = g_space_off.back();
 }
 
 // ------------------------------------------------------------ hostile data ---
@@ -128,6 +130,24 @@ bool apply_edit(std::string& d, const Step& st, bool& validity_preserving)
     d.replace(a->vb, a->ve - a->vb, v); return true;
   }
   if (op == "vc") { if (S.tags.empty()) return false; const xmlscan::Tag& T = S.tags[(size_t)st.arg(0) % S.tags.size()]; if (T.name == "gama-local" && T.end) return false; d.insert(T.e, "<!-- c " + std::to_string(st.arg(1)) + " -->"); return true; }
+  if (op == "vl") {
+    // a LONG LINE: 20-60 kB of blanks inside a start tag (between the last attribute and '>') and every line break
+    // outside <description> turned into a blank, so that most of the document is one line of tens of kilobytes with
+    // real content at every offset of it.  White space inside a tag and between elements is not data.
+    std::vector<int> cand; for (size_t t = 0; t < S.tags.size(); t++) if (S.tags[t].start && !S.tags[t].attrs.empty() && S.tags[t].name != "description") cand.push_back((int)t);
+    if (cand.empty()) return false;
+    size_t db = std::string::npos, de = 0; for (size_t t = 0; t < S.tags.size(); t++) if (S.tags[t].start && S.tags[t].name == "description" && S.tags[t].match >= 0) { db = S.tags[t].b; de = S.tags[S.tags[t].match].e; }
+    const xmlscan::Tag& T = S.tags[cand[(size_t)st.arg(0) % cand.size()]];
+    size_t at = T.e - (T.empty ? 2 : 1); size_t pad = 20000 + (size_t)st.arg(1) % 40000;
+    std::string out; out.reserve(d.size() + pad);
+    for (size_t i = 0; i < d.size(); i++) {
+      if (i == at) out.append(pad, ' ');
+      char c = d[i]; bool in_desc = db != std::string::npos && i >= db && i < de;
+      bool in_decl = i < 64 && d.compare(0, 5, "<?xml") == 0 && i <= d.find("?>");      // the XML declaration keeps its own line
+      out += ((c == '\n' || c == '\r') && !in_desc && !in_decl) ? ' ' : c;
+    }
+    d.swap(out); return true;
+  }
   if (op == "vw") { if (S.tags.empty()) return false; const xmlscan::Tag& T = S.tags[(size_t)st.arg(0) % S.tags.size()]; if (T.name == "description" && T.start) return false; static const char* W[] = {"\n", " ", "\n\n", "\t", "\r\n"}; d.insert(T.e, W[st.arg(1) % 5]); return true; }
 
   validity_preserving = false;
@@ -257,7 +277,7 @@ public:
   const char* name() const override { return "sim_io"; }
   const char* property() const override { return "C11"; }
   void init(const std::string& tier) override { setup_sweep(tier); }
-  uint64_t enumerated_count(const std::string& tier) override { setup_sweep(tier); return g_space_off.back(); }
+  uint64_t enumerated_count(const std::string& tier) override { setup_sweep(tier); return g_scale_first + (uint64_t)ioev::n_scale_docs(); }
   long recycle_after() override { return 1500; }     // several error paths of gama-local leak the network object by design
   Plan generate(uint64_t seed, uint64_t index, const std::string& tier) override;
   Verdict execute(const Plan& plan, EventLog& log, Stats& st) override;
@@ -438,6 +458,7 @@ Verdict IoEngine::execute(const Plan& plan, EventLog& log, Stats& st)
   std::vector<size_t> cuts;
   int fired = 0;
   std::string ev_shape;
+  if (!plan.get("scale").empty()) { B = ioev::build_scale(plan.geti("scale", 0)); fired++; valid = false; st.add("documents_of_extreme_size"); st.add("extreme_size_bytes", (long long)B.size()); }
   if (plan.get("synth") == "gkf") {             // grammar-derived gama-local network, built from the plan's steps
     int ns = 0; B = ioev::build_gkf(plan, &ns, &ev_shape); fired += ns; valid = false;
     st.add("synthetic_gkf_networks"); st.add("synthetic_gkf_steps", ns);
@@ -456,12 +477,29 @@ Verdict IoEngine::execute(const Plan& plan, EventLog& log, Stats& st)
     bool applied = apply_edit(B, s, vp);
     if (applied) { fired++; st.add("fault." + s.op); if (!vp) valid = false; if (s.op == "err") err_end = true; }
     else st.add("fault_not_applicable." + s.op);
-    if (B.size() > 40000) B.resize(40000);
+    if (B.size() > 120000) B.resize(120000);
   }
   for (const Step& s : plan.steps) {
     if (s.op == "cut") { if (!B.empty()) { cuts.push_back((size_t)s.arg(0) % (B.size() + 1)); st.add("fault.cut"); fired++; } }
     else if (s.op == "empty") { if (!B.empty()) { size_t c = (size_t)s.arg(0) % (B.size() + 1); cuts.push_back(c); cuts.push_back(c); st.add("fault.empty_chunk"); fired++; } }
     else if (s.op == "finalsep") { finalsep = true; st.add("fault.final_flag_separate"); fired++; }
+  }
+  // Re-spelling that is not data (quote style, white space, attribute order, comments, a long line) must not change what
+  // gama-local computes: the run is compared with the run on the document as it was before those edits.
+  bool respelled_only = valid && target == "local" && fired > 0 && plan.geti("same_as_base", 0) != 0;
+  if (respelled_only) for (const Step& s : plan.steps) if (!is_transport(s.op) && s.op != "vq" && s.op != "vs" && s.op != "vr" && s.op != "vw" && s.op != "vc" && s.op != "vl") respelled_only = false;
+  if (respelled_only) {
+    std::string B0 = from_hex(plan.get("doc", "")); std::vector<std::string> a0 = split_args(plan.get("args", "- --xml -"));
+    bool plain = true; for (auto& a : a0) if (a == "@X" || a == "@FULL" || a == "--verbose") plain = false;
+    if (!B0.empty() && plain) {
+      procemu::Result R1 = procemu::run_gama_local(a0, B, {}, false), R0 = procemu::run_gama_local(a0, B0, {}, false);
+      st.add("processes", 2); st.add("respelling_compared");
+      // the description is echoed in the results: it is compared apart from white space
+      auto squeeze = [](const std::string& t) { std::string o; bool sp = false; for (char c : t) { if (c == ' ' || c == '\n' || c == '\t' || c == '\r') { sp = true; continue; } if (sp && !o.empty()) o += ' '; sp = false; o += c; } return o; };
+      bool same = R0.exit_code == R1.exit_code && squeeze(R0.out) == squeeze(R1.out) && R0.files.size() == R1.files.size();
+      for (size_t i = 0; same && i < R0.files.size(); i++) same = squeeze(R0.files[i]) == squeeze(R1.files[i]);
+      if (!same) return Verdict::fail("C11:respelling-changes-result:local", 0, fmt("the same document with other white space / quotes / attribute order gives another result (exit %d vs %d, stdout %zu vs %zu bytes)", R0.exit_code, R1.exit_code, R0.out.size(), R1.out.size()));
+    }
   }
   st.nontrivial = fired > 0;
   // where did the faults land?  (element, lexical context, fault kind)
@@ -574,6 +612,11 @@ Plan IoEngine::generate(uint64_t seed, uint64_t index, const std::string& tier)
     p.seti("refill", 0);
     return p;
   }
+  if (index < g_scale_first + (uint64_t)ioev::n_scale_docs()) {
+    // ---- enumerated part: well-formed documents of extreme size through the parser
+    p.seti("scale", (long long)(index - g_scale_first)); p.set("target", "gkf"); p.set("name", fmt("scale-%d", (int)(index - g_scale_first))); p.seti("refill", 0);
+    return p;
+  }
   // ---- seeded part
   p.seti("refill", g.chance(1, 6) ? 1 : 0);
   if (g.chance(1, 8)) {
@@ -675,6 +718,8 @@ Plan IoEngine::generate(uint64_t seed, uint64_t index, const std::string& tier)
     int ne = (int)g.below(5);
     static const char* V[] = {"vq", "vs", "vr", "vf", "vc", "vw"};
     for (int i = 0; i < ne; i++) step(V[g.below(6)], {(long long)g.below(5000), (long long)g.below(50), (long long)g.below(50)});
+    if (g.chance(1, 6)) step("vl", {(long long)g.below(5000), (long long)g.below(40000)});
+    if (g.chance(1, 3)) p.seti("same_as_base", 1);
   } else if (cls < 5 && (target == "local" || target == "gkf")) {
     // networks that need the approximate-coordinates stage: one to three points without (some of) their coordinates,
     // sometimes with observations removed as well, so that the stage works with little - or cannot do it
